@@ -238,12 +238,15 @@ func (f *Font) Write(w io.Writer) error {
 	return nil
 }
 
+// selectWidths chooses defaultWidthX and nominalWidthX.  The Private DICT
+// stores both as integers, so only integral values are returned.
 func (f *Font) selectWidths() (float64, float64) {
 	numGlyphs := int32(len(f.Glyphs))
 	if numGlyphs == 0 {
 		return 0, 0
 	} else if numGlyphs == 1 {
-		return f.Glyphs[0].Width, f.Glyphs[0].Width
+		w := math.Round(f.Glyphs[0].Width)
+		return w, w
 	}
 
 	widthHist := make(map[float64]int32)
@@ -251,7 +254,7 @@ func (f *Font) selectWidths() (float64, float64) {
 	var defaultWidth float64
 	for _, glyph := range f.Glyphs {
 		w := glyph.Width
-		if math.Abs(w) > 32767 {
+		if math.Abs(w) > 32767 || w != math.Trunc(w) {
 			continue
 		}
 		widthHist[w]++
@@ -278,13 +281,16 @@ func (f *Font) selectWidths() (float64, float64) {
 			maxWidth = w
 		}
 	}
+	if minWidth > maxWidth { // every glyph uses the default width
+		return defaultWidth, 0
+	}
 	nominalWidth := math.Round(sum / float64(numGlyphs))
 	if nominalWidth < minWidth+107 {
 		nominalWidth = minWidth + 107
 	} else if nominalWidth > maxWidth-107 {
 		nominalWidth = maxWidth - 107
 	}
-	return defaultWidth, nominalWidth
+	return defaultWidth, math.Round(nominalWidth)
 }
 
 func (f *Font) encodeCharStrings() (cffIndex, float64, float64, error) {
